@@ -15,7 +15,7 @@
 From AS Require Import Base Effects.
 From AS.Spec Require Import Terminal.
 From AS.Model Require Import Sgr Tokenizer Table Ops Render Parse.
-From AS.Proofs Require Import TableProofs TokenizerProofs ParseBasics RemoveProofs RenderProofs ParseProofs RoundTripProofs RoundTripEsc.
+From AS.Proofs Require Import TableProofs TokenizerProofs ParseBasics RemoveProofs RenderProofs ParseProofs RoundTripProofs RoundTripEsc SimplifyEsc.
 
 Theorem C03_simplify_def : forall s nid,
   simplify s nid = parse (render (mkA (base s) (drop_invalid (tbl s)))) nid.
@@ -68,6 +68,37 @@ Theorem C03_roundtrip_esc_wf : forall s nid,
   /\ rm_wf s' /\ is_parsable_tbl (tbl s') = true /\ is_valid_tbl (tbl s') = true.
 Proof. exact roundtrip_esc_render. Qed.
 Print Assumptions C03_roundtrip_esc_wf.
+
+(* ... with the stability clause: the re-parsed value is a fixed point of parse-then-render and satisfies cuts_closed again *)
+Theorem C03_roundtrip_esc_full : forall s nid,
+  ssorted (tbl s) -> cuts_closed s = true -> adds_wf (tbl s) ->
+  let s' := fst (parse (render s) nid) in
+  base s' = base s
+  /\ (forall i, i < length (base s) -> teq (style s' i) (style s i))
+  /\ rm_wf s' /\ is_parsable_tbl (tbl s') = true /\ is_valid_tbl (tbl s') = true
+  /\ (forall n, render (fst (parse (render s') n)) = render s')
+  /\ cuts_closed s' = true.
+Proof. exact SimplifyEsc.C03_roundtrip_esc_full. Qed.
+Print Assumptions C03_roundtrip_esc_full.
+
+(* simplify() on a text with embedded control sequences: ALL clauses of C03_simplify below with cuts_closed in place of no_esc
+   (text, style over the valid settings, parsable, valid, well formed, idempotence, fixed point), and the simplified value
+   satisfies the hypotheses again *)
+Theorem C03_simplify_esc : forall s n1,
+  ssorted (tbl s) -> cuts_closed s = true -> valid_adds_wf (tbl s) ->
+  let s1 := fst (simplify s n1) in
+  base s1 = base s
+  /\ (forall i, i < length (base s) -> teq (style s1 i) (style_of (map stxt (active_at (drop_invalid (tbl s)) i))))
+  /\ (coh_marks (tbl s) -> forall i, i < length (base s) -> teq (style s1 i) (style_valid s i))
+  /\ is_parsable_tbl (tbl s1) = true /\ is_valid_tbl (tbl s1) = true /\ rm_wf s1
+  /\ (forall n2, render (fst (simplify s1 n2)) = render s1)
+  /\ (forall n, render (fst (parse (render s1) n)) = render s1)
+  /\ cuts_closed s1 = true /\ valid_adds_wf (tbl s1) /\ ssorted (tbl s1).
+Proof. exact SimplifyEsc.C03_simplify_esc. Qed.
+Print Assumptions C03_simplify_esc.
+
+Example C03_simplify_esc_example := SimplifyEsc.ex_ei_simplify.
+Example C03_simplify_cut_inside_breaks := SimplifyEsc.simplify_cut_inside_breaks.
 
 (* it covers the ESC-free case *)
 Theorem C03_no_esc_is_closed : forall s, no_esc (base s) = true -> cuts_closed s = true.
